@@ -118,10 +118,17 @@ impl Report {
     pub fn add(&mut self, k: &str, n: u64) {
         *self.counters.entry(k.to_string()).or_insert(0) += n;
     }
+    /// Keeps every kind of disagreement visible: at most 40 records per (what, devs, model==observed)
+    /// signature, so that thousands of instances of one known finding cannot crowd out another kind.
     pub fn mismatch(&mut self, v: Value) {
-        if self.mismatches.len() < 5000 {
+        let explained = v.get("model").map(|m| Some(m) == v.get("observed")).unwrap_or(false);
+        let key = format!("mm:{}:{}:{}", v.get("what").map(|w| w.to_string()).unwrap_or_default(),
+                          v.get("devs").map(|w| w.to_string()).unwrap_or_default(), explained);
+        let n = *self.counters.get(&key).unwrap_or(&0);
+        if n < 40 && self.mismatches.len() < 20000 {
             self.mismatches.push(v);
         }
+        self.count(&key);
         self.count("mismatches_total");
     }
     pub fn drift(&mut self, v: Value) {
